@@ -62,12 +62,15 @@ def renderObs (short : Bool) (p : R × List Call) : String :=
 
 /-! ### sequences of parses through one context (`cseq`) and children of one container (`csib`) -/
 
+/-- what the model says to a line that claims a nil path of the type's own (`ownNilPath` = 1): nothing the
+    implementation can have shown — never an echo of the observation -/
+def ownRefused : String := "bad-op:own-nil-path-not-modelled"
+
 structure StepD where
   entry : String
   inp : String
   rule : RefineRule
   adm : Bool
-  own : Bool
   h : List Op
   ws : List W := []   -- csib: the child is the schema under this wrapper chain (`W=<stack>` token)
 
@@ -79,8 +82,10 @@ def parseStepD (seg : String) : Option StepD :=
       | [] => some []
       | [t] => parseStack (String.ofList (t.toList.drop 2))
       | _ => none
+    -- own = 1 (a nil path of the type's own, outside the engine model) is refused: the whole line becomes "bad-op"
+    if own != "0" then none else
     match ops.mapM parseOp, ws with
-    | some h, some ws => some ⟨entry, inp, if rule == "nilable" then .nilableFlag else .ptrTy, adm == "1", own == "1", h, ws⟩
+    | some h, some ws => some ⟨entry, inp, if rule == "nilable" then .nilableFlag else .ptrTy, adm == "1", h, ws⟩
     | _, _ => none
   | _ => none
 
@@ -134,12 +139,11 @@ def handleSeq (init : String) (segs : List String) (impl : Option String) : Stri
       | none => ([], "?")
     let implAt := fun (k : Nat) => (iSteps.getD k none)
     -- StrictParse steps (a typed nil pointer / a value of the static input type) are modelled and judged like Parse steps:
-    -- `specNil` on the step's own history. Types with a private nil path echo.
-    let echo := fun (d : StepD) => d.own
+    -- `specNil` on the step's own history.
     let idx := List.range ds.length
     let ms := idx.map fun k =>
       match ds[k]?, run.2[k]? with
-      | some d, some r => if echo d then (implAt k).getD "-" else renderStep d r
+      | some d, some r => renderStep d r
       | _, _ => "?"
     let ss := idx.map fun k =>
       match ds[k]? with
@@ -171,16 +175,14 @@ def handleSib (kind init : String) (segs : List String) (impl : Option String) :
       | none => []
     let implAt := fun (k : Nat) => (iSteps.getD k none)
     let idx := List.range ds.length
-    let isErrStr := fun (s : String) => s.startsWith "err" || s.startsWith "panic"
-    -- does any child fail? (own-nil-path children: what the implementation showed)
+    -- does any child fail?
     let anyErr := idx.any fun k =>
-      match ds[k]?, run.2[k]? with
-      | some d, some r => if d.own then isErrStr ((implAt k).getD "-") else (match r with | .err _ => true | .ok _ => false)
-      | _, _ => false
+      match run.2[k]? with
+      | some r => (match r with | .err _ => true | .ok _ => false)
+      | _ => false
     let ms := idx.map fun k =>
       match ds[k]?, run.2[k]? with
       | some d, some r =>
-        if d.own then (implAt k).getD "-" else
         (match r with
          | .err o => if kind == "array" || d.inp == "ok" || d.inp == "bad" then "err" else renderSibErr o
          | .ok _ =>
@@ -247,8 +249,9 @@ def handleLine (line : String) : String :=
       let x : Bool × Bool := (okbad == "ok", dep == "1")
       let a := (ctxStepX depValidate {} (applyAllC dropsCfg (kindOfName kind) .nilableFlag false s0 h) (some x)).2
       let b := (ctxStepX depValidate {} s0 (some x)).2
-      -- (own: no row has a nil path outside the engine model any more — f5847cc — the token is always 0)
-      (if own == "1" then impl.getD "-" else if a == b then "same" else "diff:verdict") ++ "\tsame"
+      -- (own: no row has a nil path outside the engine model any more — f5847cc — the token is always 0; a line that
+      -- says 1 is refused, never echoed: round 4c, audit A LOW)
+      (if own == "1" then ownRefused else if a == b then "same" else "diff:verdict") ++ "\tsame"
   | "c03" :: "wval" :: stack :: okbad :: ops =>
     match parseStack stack, ops.mapM parseOp with
     | some ws, some h =>
@@ -262,7 +265,7 @@ def handleLine (line : String) : String :=
     let adm := adm == "1"
     match parseStack stack, ops.mapM parseOp with
     | some ws, some h =>
-      let m := if own == "1" then impl.getD "-" else renderObs false ((wrap (applyAll rule {} h) ws).parse adm .nil)
+      let m := if own == "1" then ownRefused else renderObs false ((wrap (applyAll rule {} h) ws).parse adm .nil)
       let admissible := (allOutcomes.filter (specNil adm h)).map fun o => renderObs false (specWrapped o ws)
       let s := match impl with
         | none => "-"
@@ -275,9 +278,9 @@ def handleLine (line : String) : String :=
     match ops.mapM parseOp with
     | none => "bad-op"
     | some h =>
-      -- own = 1: the type has its own nil path (discriminated union, lazy) that the engine model does
-      -- not cover; such cases are judged by the specification only (the model echoes the observation)
-      let m := if own == "1" then impl.getD "-" else renderOutcome (nilOutcome adm (applyAll rule {} h))
+      -- own = 1 (a type with a nil path of its own that the engine model does not cover) no longer exists in the
+      -- harness table; the model never echoes the observation: such a line is refused and shows as a broken tie
+      let m := if own == "1" then ownRefused else renderOutcome (nilOutcome adm (applyAll rule {} h))
       let s := match impl with
         | none => "-"
         | some io =>
